@@ -277,4 +277,123 @@ theorem signextend_bits_spec (a b : W) (ha : a.toNat < 31) (i : Nat) (hi : i < 2
         have h4 : i - (t + 1) < 255 - t := by omega
         simp [h1, h3, hi, hbtt, Nat.testBit_two_pow_sub_one, h4]
 
+/-! ### EXP: square-and-multiply over the limbs -/
+
+theorem wpow_mul (x : W) (a b : Nat) : (x ^ a) ^ b = x ^ (a * b) := by
+  induction b with
+  | zero => simp [BitVec.pow_zero]
+  | succ b ih => rw [BitVec.pow_succ, ih, Nat.mul_succ, BitVec.pow_add]
+
+theorem wpow_sq (x : W) (k : Nat) : (x * x) ^ k = x ^ (2 * k) := by
+  have : x * x = x ^ 2 := by
+    rw [BitVec.pow_succ, BitVec.pow_succ, BitVec.pow_zero, BitVec.one_mul]
+  rw [this, wpow_mul]
+
+theorem toNat_wpow (x : W) (n : Nat) : (x ^ n).toNat = x.toNat ^ n % 2 ^ 256 := by
+  induction n with
+  | zero => simp [BitVec.pow_zero]
+  | succ n ih =>
+    have hp : x.toNat ^ (n + 1) = x.toNat ^ n * x.toNat := Nat.pow_succ _ _
+    rw [BitVec.pow_succ, BitVec.toNat_mul, ih, hp, Nat.mul_mod (x.toNat ^ n % 2 ^ 256) x.toNat,
+      Nat.mod_mod, ← Nat.mul_mod]
+
+theorem expInner_spec : ∀ (n word : Nat) (base v : W),
+    expInner n word base v = (base ^ (2 ^ n), v * base ^ (word % 2 ^ n)) := by
+  intro n
+  induction n with
+  | zero =>
+    intro word base v
+    simp [expInner, Nat.mod_one, BitVec.pow_zero, BitVec.pow_one]
+  | succ n ih =>
+    intro word base v
+    unfold expInner
+    simp only []
+    rw [ih]
+    have h2 : 2 ^ (n + 1) = 2 * 2 ^ n := by rw [Nat.pow_succ, Nat.mul_comm]
+    have hw : word % 2 ^ (n + 1) = word % 2 + 2 * (word / 2 % 2 ^ n) := by
+      rw [h2]
+      have := Nat.mod_mul (x := word) (a := 2) (b := 2 ^ n)
+      omega
+    rw [wpow_sq, wpow_sq, ← h2, hw, BitVec.pow_add]
+    congr 1
+    rw [← BitVec.mul_assoc]
+    congr 1
+    rcases Nat.mod_two_eq_zero_or_one word with h | h
+    · simp [h, BitVec.pow_zero]
+    · simp [h, BitVec.pow_one]
+
+
+/-- value of a little-endian list of 64-bit limbs -/
+def limbsVal : List Nat → Nat
+  | [] => 0
+  | w :: r => w + 2 ^ 64 * limbsVal r
+
+theorem expOuter_spec : ∀ (limbs : List Nat) (rem : Nat) (base v : W),
+    (∀ w ∈ limbs, w < 2 ^ 64) → limbsVal limbs < 2 ^ rem →
+    expOuter limbs rem base v = v * base ^ (limbsVal limbs) := by
+  intro limbs
+  induction limbs with
+  | nil => intro rem base v _ _; simp [expOuter, limbsVal, BitVec.pow_zero]
+  | cons w rest ih =>
+    intro rem base v hw hP
+    unfold expOuter
+    simp only [expInner_spec]
+    have hw0 : w < 2 ^ 64 := hw w (by simp)
+    have hrest : ∀ x ∈ rest, x < 2 ^ 64 := fun x hx => hw x (by simp [hx])
+    simp only [limbsVal] at hP ⊢
+    by_cases hr : 64 ≤ rem
+    · have hmin : min 64 rem = 64 := by omega
+      rw [hmin, Nat.mod_eq_of_lt hw0]
+      have hP' : limbsVal rest < 2 ^ (rem - 64) := by
+        have e : 2 ^ rem = 2 ^ 64 * 2 ^ (rem - 64) := by rw [← Nat.pow_add]; congr 1; omega
+        rw [e] at hP
+        false_or_by_contra
+        have hge : 2 ^ (rem - 64) ≤ limbsVal rest := by omega
+        have := Nat.mul_le_mul_left (2 ^ 64) hge
+        omega
+      rw [ih (rem - 64) _ _ hrest hP', wpow_mul, BitVec.pow_add, BitVec.mul_assoc]
+    · have hmin : min 64 rem = rem := by omega
+      have hlt : 2 ^ rem < 2 ^ 64 := Nat.pow_lt_pow_right (by omega) (by omega)
+      have hz : limbsVal rest = 0 := by
+        false_or_by_contra
+        have : 1 ≤ limbsVal rest := by omega
+        have := Nat.mul_le_mul_left (2 ^ 64) this
+        omega
+      rw [hmin]
+      have hwr : w < 2 ^ rem := by omega
+      rw [Nat.mod_eq_of_lt hwr]
+      have h0 : limbsVal rest < 2 ^ (rem - 64) := by
+        rw [hz]; exact Nat.two_pow_pos _
+      rw [ih (rem - 64) _ _ hrest h0, hz]
+      simp [BitVec.pow_zero]
+
+theorem toNat_eq_limbs (x : W) :
+    x.toNat = limbsVal [limb x 0, limb x 1, limb x 2, limb x 3] := by
+  have hx := x.isLt
+  simp only [limbsVal, limb, Nat.shiftRight_eq_div_pow]
+  omega
+
+theorem powMod_eq (b m : Nat) : ∀ e, powMod b e m = b ^ e % m := by
+  intro e
+  induction e using Nat.strongRecOn with
+  | _ e ih =>
+    unfold powMod
+    by_cases h0 : e = 0
+    · simp [h0]
+    · simp only [h0, dite_false]
+      have hlt : e / 2 < e := by omega
+      rw [ih (e / 2) hlt]
+      have hsq : b ^ (e / 2) % m * (b ^ (e / 2) % m) % m = b ^ (2 * (e / 2)) % m := by
+        rw [← Nat.mul_mod, ← Nat.pow_add]; congr 2; omega
+      rw [hsq]
+      by_cases h1 : e % 2 = 1
+      · simp only [h1, if_true]
+        have he : e = 2 * (e / 2) + 1 := by omega
+        rw [Nat.mod_mul_mod]
+        conv => rhs; rw [he, Nat.pow_succ]
+      · simp only [h1, if_false]
+        have he : 2 * (e / 2) = e := by omega
+        rw [he]
+
+
 end BA.Evm
